@@ -50,6 +50,9 @@ CHECKS = {
  "C17": dict(technique="property-based testing (proptest) with generator ground truth for flag / no-flag at exact tokens, and a round-trip oracle through the real server: apply quick fix / completion edit -> CPython parses -> parameter present in the same function only -> warning gone",
              text="Generated-input search over function shapes x expression roles x binding situations; oracle: by-construction ground truth plus the edit round trip judged with CPython's parser. Exploration only.",
              note="trusted: the generator's ground truth table (24 roles x 16 bindings) and CPython 3.11 for the edited documents", ref="DESIGN.md 4 C17", engine="vengine"),
+ "C18": dict(technique="model-based property testing (proptest) of textDocument/completion of the real server on every cursor line: region ground truth from the renderer, offered set vs the reference model's visible set with parameter / self / scope filters",
+             text="Generated-input search over workspaces and cursor lines (plus incomplete documents); oracle: by-construction region class per line and set algebra against the model. Exploration only.",
+             note="trusted: reference model (model.rs), the renderer's region table", ref="DESIGN.md 4 C18", engine="vengine"),
 }
 PENDING = {
 }
